@@ -27,8 +27,27 @@ import time
 
 VERIF = os.path.dirname(os.path.dirname(os.path.abspath(__file__)))
 LEAN = os.path.join(VERIF, 'lean')
+_DRIVER_SNAPSHOT = {}
+
 def driver_path(prop):
-    return os.path.join(LEAN, '.lake', 'build', 'bin', 'drv_' + prop.lower())
+    # the private copy taken under the build lock (a concurrent check run against another tree
+    # may rebuild the shared executable while this one is still using it)
+    return _DRIVER_SNAPSHOT.get(prop) or os.path.join(LEAN, '.lake', 'build', 'bin', 'drv_' + prop.lower())
+
+
+def _snapshot_driver(prop):
+    import atexit, shutil, tempfile
+    src = os.path.join(LEAN, '.lake', 'build', 'bin', 'drv_' + prop.lower())
+    d = os.path.join(LEAN, '.lake', 'build', 'run')
+    try:
+        os.makedirs(d, exist_ok=True)
+        fd, dst = tempfile.mkstemp(prefix='drv_%s.' % prop.lower(), dir=d)
+        os.close(fd)
+        shutil.copy2(src, dst)
+        _DRIVER_SNAPSHOT[prop] = dst
+        atexit.register(lambda: os.path.exists(dst) and os.remove(dst))
+    except OSError:
+        _DRIVER_SNAPSHOT.pop(prop, None)
 
 REPO = os.environ.get('GLOM_REPO', '/repo')
 ALLOWED_AXIOMS = {'propext', 'Classical.choice', 'Quot.sound'}
@@ -77,6 +96,8 @@ def build(prop, lean_modules):
         rc, out = sh(['lake', 'build', 'drv_' + prop.lower()], cwd=LEAN)
         res['driver_ok'] = (rc == 0)
         res['logs']['driver'] = out[-4000:] if rc else ''
+        if rc == 0:
+            _snapshot_driver(prop)
         for m in lean_modules:
             rc, out = sh(['lake', 'build', m], cwd=LEAN)
             res['props_ok'][m] = (rc == 0)
@@ -87,7 +108,8 @@ def build(prop, lean_modules):
 
 def audit(lean_modules):
     """(#theorems, #clean, details) via collectAxioms on every theorem of the modules"""
-    rc, out = sh(['lake', 'env', 'lean', '--run', 'Audit.lean'] + list(lean_modules), cwd=LEAN)
+    with Lock():
+        rc, out = sh(['lake', 'env', 'lean', '--run', 'Audit.lean'] + list(lean_modules), cwd=LEAN)
     thms = []
     if rc != 0:
         return {'ok': False, 'error': out[-3000:], 'theorems': []}
